@@ -38,6 +38,8 @@ def run(tier, seed, replay_rows=None):
     ck.assumptions = ["time in integer units (ns/us/ms/s) chosen so that products stay below 2^31",
                       "distribution none, jitter 0"]
     kw = dict(workers=8, timeout=600)
+    # unbounded: one stage, all targets / durations / offsets in Nat (Apalache); mutant (off+1) must be refuted
+    vlib.apalache_theorems(ck, "StagedInd", mutant="StagedIndMut")
     vlib.flow(ck, mcs=[("Staged", "MC_Staged.cfg", kw), ("Staged", "MC_Staged_Impl.cfg", kw)],
               sub="c10", trace_module="Trace_Staged", trace_cfg="Trace_Staged.cfg", trace_file="c10.ndjson",
               key_of=key_of,
